@@ -65,8 +65,8 @@ type ReplayFile struct {
 	History bool `json:"replay_worker_history_first,omitempty"`
 	// FreshConfirmed: the file was re-executed in a fresh OS process by the
 	// worker that wrote it and failed the same way.
-	FreshConfirmed bool `json:"confirmed_in_fresh_process,omitempty"`
-	Scenario  Scenario   `json:"scenario"`
+	FreshConfirmed bool     `json:"confirmed_in_fresh_process,omitempty"`
+	Scenario       Scenario `json:"scenario"`
 }
 
 func (s *Scenario) clone() *Scenario {
@@ -109,36 +109,36 @@ type RunResult struct {
 	// non-trivial cases inside a group (stream, prior, entry); groups seen more
 	// than once are counted once (max), which is conservative.
 	GroupDistinct map[uint64]int64
-	Segs       []Seg
-	EvHash     uint64
-	Counters   map[string]int64
-	SitePairs  map[[2]int]struct{}
-	Sample     interface{}
+	Segs          []Seg
+	EvHash        uint64
+	Counters      map[string]int64
+	SitePairs     map[[2]int]struct{}
+	Sample        interface{}
 }
 
 // Stats accumulates over the runs of one worker and is merged across workers.
 type Stats struct {
-	Prop        string             `json:"property"`
-	Tier        string             `json:"tier"`
-	Lane        string             `json:"lane"`
-	Seed        uint64             `json:"seed"`
-	Worker      int                `json:"worker"`
-	Runs        int64              `json:"runs"`
-	Evals       int64              `json:"evaluations"`
-	NonTrivial  int64              `json:"nontrivial"`
-	Distinct    []uint64           `json:"distinct_hashes"`
-	Groups      map[string]int64   `json:"distinct_groups,omitempty"`
-	Steps       int64              `json:"logical_steps"`
-	Counters    map[string]int64   `json:"counters"`
-	SitePairs   [][2]int           `json:"site_pairs"`
-	Samples     []interface{}      `json:"samples"`
-	Violations  []ViolationRef     `json:"violations"`
-	Premise     []string           `json:"premise_failed"`
-	Skipped     map[string]int64   `json:"skipped"`
-	Truncated   bool               `json:"budget_truncated"`
-	Watchdog    bool               `json:"watchdog_tripped,omitempty"`
-	WallS       float64            `json:"wall_s"`
-	EvHashes    []string           `json:"ev_hashes,omitempty"` // determinism self-test
+	Prop        string           `json:"property"`
+	Tier        string           `json:"tier"`
+	Lane        string           `json:"lane"`
+	Seed        uint64           `json:"seed"`
+	Worker      int              `json:"worker"`
+	Runs        int64            `json:"runs"`
+	Evals       int64            `json:"evaluations"`
+	NonTrivial  int64            `json:"nontrivial"`
+	Distinct    []uint64         `json:"distinct_hashes"`
+	Groups      map[string]int64 `json:"distinct_groups,omitempty"`
+	Steps       int64            `json:"logical_steps"`
+	Counters    map[string]int64 `json:"counters"`
+	SitePairs   [][2]int         `json:"site_pairs"`
+	Samples     []interface{}    `json:"samples"`
+	Violations  []ViolationRef   `json:"violations"`
+	Premise     []string         `json:"premise_failed"`
+	Skipped     map[string]int64 `json:"skipped"`
+	Truncated   bool             `json:"budget_truncated"`
+	Watchdog    bool             `json:"watchdog_tripped,omitempty"`
+	WallS       float64          `json:"wall_s"`
+	EvHashes    []string         `json:"ev_hashes,omitempty"` // determinism self-test
 	distinctSet map[uint64]struct{}
 	pairSet     map[[2]int]struct{}
 }
